@@ -36,7 +36,7 @@ M = [
  ("C07", "empty-payload-stored", "server/client.go", "\t\t\t\tif len(msg.Payload) == 0 {\n\t\t\t\t\tsrv.retainedDB.Remove(msg.Topic)\n\t\t\t\t} else {", "\t\t\t\tif false {\n\t\t\t\t\tsrv.retainedDB.Remove(msg.Topic)\n\t\t\t\t} else {"),
  ("C07", "remove-keeps-msg-with-children", "retained/trie/retain_trie.go", "\tpNode.msg = nil\n\tif len(pNode.children) == 0 {", "\tif len(pNode.children) == 0 {\n\t\tpNode.msg = nil"),
  ("C07", "rh1-replays-on-resubscribe", "server/client.go", "if !isShared && ((!subRs[0].AlreadyExisted && v.RetainHandling != 2) || v.RetainHandling == 0) {", "if !isShared && v.RetainHandling != 2 {"),
- ("C07", "shared-subscribe-replays", "server/client.go", "if !isShared && ((!subRs[0].AlreadyExisted && v.RetainHandling != 2) || v.RetainHandling == 0) {", "if (!subRs[0].AlreadyExisted && v.RetainHandling != 2) || v.RetainHandling == 0 {"),
+ ("C07", "shared-subscribe-replays", "server/client.go", "if !isShared && ((!subRs[0].AlreadyExisted && v.RetainHandling != 2) || v.RetainHandling == 0) {", "if (isShared || !isShared) && ((!subRs[0].AlreadyExisted && v.RetainHandling != 2) || v.RetainHandling == 0) {"),
  ("C07", "replay-qos-not-capped", "server/client.go", "\t\t\t\t\tif v.QoS > subRs[0].Subscription.QoS {\n\t\t\t\t\t\tv.QoS = subRs[0].Subscription.QoS\n\t\t\t\t\t}\n", ""),
  ("C08", "will-after-normal-disconnect", "server/client.go", "\tclient.cleanWillFlag = !(client.version == packets.Version5 && dis.Code == codes.DisconnectWithWillMessage)", "\tclient.cleanWillFlag = false"),
  ("C08", "delayed-will-not-cancelled", "server/server.go", "\t\t\t\tif w, ok := srv.willMessage[client.opts.ClientID]; ok {\n\t\t\t\t\tw.signal(false)\n\t\t\t\t}", "\t\t\t\tif w, ok := srv.willMessage[client.opts.ClientID]; ok {\n\t\t\t\t\t_ = w\n\t\t\t\t}"),
